@@ -146,8 +146,43 @@ func (w *world) tick() {
 	}
 	if w.ticks > max {
 		w.res.Overrun = true
+		w.res.OverrunKind = "ticks"
 		finish(97, false)
 	}
+	if w.ticks&15 == 0 && rssBytes() > 384<<20 {
+		w.res.Overrun = true
+		w.res.OverrunKind = "memory"
+		finish(97, false)
+	}
+}
+
+var statmBuf [128]byte
+
+// rssBytes reads the resident set size from /proc/self/statm (one cheap
+// syscall; runtime.ReadMemStats would stop the world).
+func rssBytes() int64 {
+	fd, err := syscall.Open("/proc/self/statm", syscall.O_RDONLY, 0)
+	if err != nil {
+		return 0
+	}
+	n, _ := syscall.Read(fd, statmBuf[:])
+	_ = syscall.Close(fd)
+	field, val := 0, int64(0)
+	for i := 0; i < n; i++ {
+		c := statmBuf[i]
+		if c == ' ' {
+			if field == 1 {
+				return val * 4096
+			}
+			field++
+			val = 0
+			continue
+		}
+		if c >= '0' && c <= '9' {
+			val = val*10 + int64(c-'0')
+		}
+	}
+	return 0
 }
 
 func (w *world) done(seq int, op, path string, n int, err error, flt *Fault, fi int, fitted bool) {
